@@ -178,6 +178,18 @@ def unit_actiondata():
 
 def unit_modifiers():
     out = ""
+    for file, ty in [("negate", "Negate"), ("dead_zone", "DeadZone"), ("delta_lerp", "DeltaLerp")]:
+        src = read(MODF + file + ".rs")
+        if ty == "DeadZone":
+            ed, _ = R.enum_def(src, "DeadZoneKind")
+            out += ed + "\n"
+        sd, _ = R.struct_def(src, ty)
+        d, _ = translate_impl(src, [r"impl InputModifier for " + ty + r"\s*\{", r"impl " + ty + r"\s*\{"], ty, ["apply"])
+        out += sd + "\n" + d + "\n"
+    src = read(MODF + "swizzle_axis.rs")
+    ed, _ = R.enum_def(src, "SwizzleAxis")
+    d, _ = translate_impl(src, [r"impl InputModifier for SwizzleAxis\s*\{", r"impl SwizzleAxis\s*\{"], "SwizzleAxis", ["apply"])
+    out += ed + "\n" + d + "\n"
     src = read(MODF + "scale.rs")
     sd, _ = R.struct_def(src, "Scale")
     d, _ = translate_impl(src, [r"impl InputModifier for Scale\s*\{", r"impl Scale\s*\{"], "Scale", ["apply"])
@@ -185,6 +197,19 @@ def unit_modifiers():
     src = read(MODF + "delta_scale.rs")
     d, _ = translate_impl(src, [r"impl InputModifier for DeltaScale\s*\{", r"impl DeltaScale\s*\{"], "DeltaScale", ["apply"])
     out += "structure DeltaScale where\n  deriving DecidableEq, Repr\n\n" + d + "\n"
+    return out
+
+
+def unit_refs():
+    out = ""
+    for file, ty, trait, fns in [("input_condition/chord.rs", "Chord", "InputCondition", ["evaluate", "kind"]),
+                                 ("input_condition/block_by.rs", "BlockBy", "InputCondition", ["evaluate", "kind"]),
+                                 ("input_modifier/accumulate_by.rs", "AccumulateBy", "InputModifier", ["apply"])]:
+        src = read("src/input_context/" + file)
+        sd, _ = R.struct_def(src, ty)
+        d, _ = translate_impl(src, [r"impl<A: InputAction> " + trait + r" for " + ty + r"<A>\s*\{", r"impl<A: InputAction> " + ty + r"<A>\s*\{"],
+                              ty, fns)
+        out += sd + "\n" + d + "\n"
     return out
 
 
@@ -197,6 +222,7 @@ UNITS = [
     ("Tracker", unit_tracker, ["Value"], ["C03", "C04"]),
     ("ActionData", unit_actiondata, ["Value", "Events"], ["C10", "C01"]),
     ("Modifiers", unit_modifiers, ["Value"], ["C18"]),
+    ("Refs", unit_refs, ["Value"], ["C13"]),
 ]
 
 HEADER = """/- GENERATED by /verif/tools/codegen.py (translator: tools/rs2lean.py) from /repo/src on every run. Do not edit. -/
